@@ -351,6 +351,7 @@ def c05(tier, seed):
     ck.require("sim.terminal_placements", 100)
     ck.require("sim.drain_checks_passed", 100)
     ck.require("sim.requests_aborted_after_total_or_partial_signal", 20)
+    ck.require("sim.timer_instant_placements", 50)
     return ck.finish()
 
 
